@@ -117,6 +117,7 @@ structure Cfg where
   wstall : Bool := false           -- body > 64 KiB and the transport pauses writing at the first write
   think : Nat := 0
   bufsize : Nat := 65536
+  closeDelim : Bool := false       -- response body delimited by connection close (no Content-Length, not chunked)
 deriving Repr
 
 /-- `ClientTimeout.__post_init__`: `total = max(total, connect or 0, sock_read or 0, sock_connect or 0)`
@@ -141,6 +142,7 @@ inductive Ev where
   | connDone (i : Nat)
   | writeResume
   | bytes (p : Piece)
+  | peerEof        -- the peer closes the connection: `eof_received()` + `connection_lost(None)`
   | cancel
   | cancelLate     -- `Task.cancel()` one loop iteration later: after the holder's task has run
 deriving Repr
@@ -171,6 +173,7 @@ structure St where
   rpaused : Bool := false
   queued : List Piece := []
   respReleased : Bool := false      -- the response no longer owns a connection
+  peerLost : Bool := false          -- the peer closed; `connection_lost` not yet delivered
   dropTotal : Bool := false         -- `handle.cancel` of the total timer is queued behind the writer's end
   holder : Bool := false
   hRel : Bool := false              -- the holder's response arrived; its task releases the slot when it runs
@@ -278,7 +281,7 @@ def closeConn (cfg : Cfg) (s : St) : St :=
 the connection) or give the connection back to the pool -/
 def releaseConn (cfg : Cfg) (s : St) : St :=
   if s.respReleased then s else
-  if s.wr = .parked ∨ s.readErr ∨ !s.eof then closeConn cfg s
+  if s.wr = .parked ∨ s.readErr ∨ !s.eof ∨ cfg.closeDelim ∨ s.tr ≠ .open then closeConn cfg s
   else
     let s := { s with respReleased := true, slot := .none, pooled := true, readT := none, totalT := none }
     releaseWaiter cfg s
@@ -453,6 +456,23 @@ def flushQueued (cfg : Cfg) : Nat → St → St
     | [] => s
     | p :: q => flushQueued cfg fuel (deliver cfg { s with queued := q } p)
 
+/-- the transport is gone; a close-delimited payload whose head has arrived is thereby complete -/
+def peerClosed (cfg : Cfg) (s : St) : St :=
+  { s with rpaused := false, peerLost := false, eof := s.eof || (cfg.closeDelim && s.headDone) }
+
+def Pc.active : Pc → Bool
+  | .headers | .think | .body => true
+  | _ => false
+
+/-- `connection_lost(None)` after the peer's close, delivered one loop iteration after
+`eof_received()` (hence after the timers of that instant): `parser.feed_eof()` completes a
+close-delimited payload; `_response_eof` (registered once `start` returned) releases -/
+def lostStep (cfg : Cfg) (s : St) : St :=
+  if !s.peerLost then s else
+  let s := peerClosed cfg s
+  let s := if s.eof ∧ s.hdrAt.isSome ∧ s.pc.active then releaseConn cfg s else s
+  if s.pc = .body ∧ s.wake = none ∧ s.eof then { s with wake := some .result } else s
+
 /-! ## external events -/
 
 def applyEv (cfg : Cfg) (s : St) : Ev → St
@@ -479,6 +499,9 @@ def applyEv (cfg : Cfg) (s : St) : Ev → St
   | .writeResume =>
     if s.wr = .parked ∧ s.tr = .open then reschedRead cfg { s with wr := .finished } else s
   | .bytes p => deliver cfg s p
+  | .peerEof =>
+    -- `eof_received()`: `_drop_timeout`; the transport is closing; `connection_lost` follows (`lostStep`)
+    if s.tr ≠ .open then s else { s with tr := .closed, readT := none, peerLost := true }
   | .cancel => taskCancel s
   | .cancelLate => s
 
@@ -570,6 +593,7 @@ def instant (cfg : Cfg) (s : St) (t : Nat) (evs : List Ev) : St :=
   let s := evs.foldl (applyEv cfg) s
   let s := fireDue cfg s.now 8 s
   let s := holderStep cfg s
+  let s := lostStep cfg s
   let s := if evs.any isLate then taskCancel s else s
   settle cfg 8 s
 
